@@ -89,15 +89,18 @@ static void *vpd_memset(void *p, int c, size_t n)
 	return p;
 }
 #endif
+#ifndef VPD_SMALL_COPY
+#define VPD_SMALL_COPY 32
+#endif
 #ifdef VP_CBMC
 static void *vpd_memcpy(void *d, const void *s, size_t n)
 {
 	vpd_check_write(d, n);
 	if (n == sizeof(struct reply)) *(struct reply *)d = *(const struct reply *)s;
 	else if (n == sizeof(struct vpd_request_obj) || n == sizeof(struct request) + VPD_REQDATA) *(struct vpd_request_obj *)d = *(const struct vpd_request_obj *)s;
-	else if (n <= 32) {      /* the solver-chosen lengths of these harnesses: a loop with a literal bound */
+	else if (n <= VPD_SMALL_COPY) {      /* the solver-chosen lengths of these harnesses: a loop with a literal bound */
 		size_t i;
-		for (i = 0; i < 32; i++) if (i < n) ((unsigned char *)d)[i] = ((const unsigned char *)s)[i];
+		for (i = 0; i < VPD_SMALL_COPY; i++) if (i < n) ((unsigned char *)d)[i] = ((const unsigned char *)s)[i];
 	} else { size_t i; for (i = 0; i < n; i++) ((unsigned char *)d)[i] = ((const unsigned char *)s)[i]; }
 	return d;
 }
